@@ -19,3 +19,8 @@ func VerifSetChunkOrdering(s queue.Server, enable bool, maxBuffer, maxGap uint32
 	sv.maxChunkBufferSize = maxBuffer
 	sv.maxChunkGapSize = maxGap
 }
+
+// VerifSend runs the real message receive handler (Service.Send) on a caller-supplied stream.
+func VerifSend(s queue.Server, st clusterv1.Service_SendServer) error {
+	return s.(*server).Send(st)
+}
